@@ -138,3 +138,43 @@ def match_known(f, known):
             if ok and hit and lo != hi:
                 return k
     return None
+
+
+def extra(binary, build, tier, rng):
+    """the bounds under REAL generators: the main stream scripts the words (`Mock`), so the unit float always comes from the trait's default
+    conversion.  Here ranges on which the formula is exact (scale and base powers of two / small integers: no rounding, hence none of the known
+    findings) are sampled from every seeded generator after a byte fill that puts a block generator at each of its 256 buffer offsets; a sample
+    outside [low, high) or a NaN is a failing input."""
+    import struct
+    def b64(x):
+        return struct.unpack("<Q", struct.pack("<d", x))[0]
+    def b32(x):
+        return struct.unpack("<I", struct.pack("<f", x))[0]
+    ranges = [(64, 0.0, 1.0), (64, -1.0, 1.0), (64, 1.0, 2.0), (32, 0.0, 1.0), (32, -2.0, 2.0), (64, 4.0, 0.0), (32, 1.0, -1.0)]
+    offs = list(range(240, 257)) + [0, 1, 3, 4, 7, 8] if tier == "quick" else list(range(0, 260))
+    reqs, meta = [], []
+    for gen in ("chacha8", "chacha12", "chacha20", "xoshiro", "splitmix", "wyrand"):
+        for off in (offs if gen.startswith("chacha") else [0, 3]):
+            w, lo, hi = ranges[(off + len(gen)) % len(ranges)] if tier == "quick" else rng.choice(ranges)
+            for w, lo, hi in ([(w, lo, hi)] if tier == "quick" else ranges[:4]):
+                bl, bh = (b64(lo), b64(hi)) if w == 64 else (b32(lo), b32(hi))
+                pre = ["fill:%d" % off] if off else []
+                if rng.chance(1, 3):
+                    pre.append("u32")
+                reqs.append("urange gen=%s seed=%d w=%d lo=%d hi=%d n=%d pre=%s" % (gen, rng.edge64(), w, bl, bh, 70 if gen.startswith("chacha") else 400, ",".join(pre)))
+                meta.append((w, lo, hi))
+    rc, res, err = C.run_lines(binary, ["run"], reqs)
+    for q, o, (w, lo, hi) in zip(reqs, res, meta):
+        if not o.startswith("ok:"):
+            yield {"kind": "oracle", "build": build, "request": q, "impl": o[:200], "model": "", "oracle": "sampling a range the constructor must accept failed: " + o[:60]}
+            continue
+        a, b = min(lo, hi), max(lo, hi)
+        for i, t in enumerate(o[3:].split(",")):
+            v = struct.unpack("<d", struct.pack("<Q", int(t)))[0] if w == 64 else struct.unpack("<f", struct.pack("<I", int(t)))[0]
+            inside = (lo <= v < hi) if lo < hi else (hi < v <= lo)
+            if not inside:          # NaN fails both comparisons
+                yield {"kind": "oracle", "build": build, "request": q, "impl": o[:300], "model": "",
+                       "oracle": "sample %d is %r (bits %s): outside the range %s of Uniform<f%d>(%r, %r) drawn from a real generator (the formula is exact on this range: no rounding is involved)" % (
+                           i, v, t, "[low, high)" if lo < hi else "(high, low]", w, lo, hi)}
+                break
+    yield {"kind": "count", "what": "real-generator-range-requests", "n": len(reqs)}
